@@ -444,7 +444,7 @@ pub fn run(args: &Args) -> i32 {
         }
     }
     let seed = args.seed;
-    let deadline = std::time::Instant::now() + std::time::Duration::from_secs(if thorough { 1500 } else { 35 });
+    let deadline = std::time::Instant::now() + std::time::Duration::from_secs(if thorough { 1500 } else { 55 });
     let accs = explore::par::run(&cases, Acc::new, |_, case, acc| {
         for (mode, pol) in [("whole", Policy::Whole), ("write1", Policy::PerByte)] {
             let o = execute(case, seed, pol);
